@@ -58,12 +58,12 @@ func c17Judge(sc *WF, tr []Ev) (fp, msg string) {
 						if e.In2Wrap {
 							return "C17:error-result-wrapped-twice", fmt.Sprintf("%s: exec returned an error Result; the post function received it wrapped a second time (IsError()=%v, Value() is a flyt.Result)", name, e.InIsErr)
 						}
-						if !e.InIsErr || e.In2Err != lastRes.RetResErr {
+						if !e.InIsErr || !sameErr(e.In2Err, lastRes.RetResErr) {
 							return "C17:error-result-stripped", fmt.Sprintf("%s: exec returned an error Result carrying %q; post received IsError()=%v Error()=%v", name, lastRes.RetResErr, e.InIsErr, e.In2Err)
 						}
 					} else if e.In2 != nil {
 						r, isRes := e.In2.(flyt.Result)
-						if !isRes || !r.IsError() || r.Error() != lastRes.RetResErr {
+						if !isRes || !r.IsError() || !sameErr(r.Error(), lastRes.RetResErr) {
 							return "C17:error-result-any-post", fmt.Sprintf("%s: exec returned an error Result; Any-style post received %#v (want nil or the Result carrying that error)", name, e.In2)
 						}
 					}
@@ -141,11 +141,11 @@ func c17Body(c *C17Case) Verdict {
 			if !deepEq(a.In, b.In) {
 				return bad("C17:twin-payload", "%s: styles observe different inputs: %#v vs %#v", a, a.In, b.In)
 			}
-			if a.RetResErr == nil && a.Phase == "post" {
-				if _, aw := a.In2.(flyt.Result); !aw {
-					if _, bw := b.In2.(flyt.Result); !bw && !deepEq(a.In2, b.In2) {
-						return bad("C17:twin-payload", "%s: styles observe different exec results in post: %#v vs %#v", a, a.In2, b.In2)
-					}
+			if a.Phase == "post" {
+				// an error Result reaches a Result-style post as IsError()+Error() (Value() nil) and an
+				// Any-style post as its Value(), i.e. nil: every style must observe the same payload
+				if !deepEq(a.In2, b.In2) {
+					return bad("C17:twin-payload", "%s: the two style assignments observe different exec results in post: %#v vs %#v (styles %05b vs %05b)", a, a.In2, b.In2, sc.Nodes[a.Leaf].Leaf.Style, tw.Nodes[b.Leaf].Leaf.Style)
 				}
 			}
 		}
